@@ -25,7 +25,7 @@ def harness(name, props, kind, what, tier='quick', bound='none', args=(), timeou
     HARNESSES.append(dict(name=name, props=props, kind=kind, what=what, tier=tier, bound=bound, args=list(args), timeout=timeout, heavy=heavy))
 
 
-_BUILT = ['C01', 'C02', 'C03', 'C04', 'C05', 'C06', 'C07', 'C09', 'C14', 'C15']
+_BUILT = ['C01', 'C02', 'C03', 'C04', 'C05', 'C06', 'C07', 'C08', 'C09', 'C11', 'C12', 'C13', 'C14', 'C15', 'C17']
 for _p in ['C01', 'C02', 'C03', 'C04', 'C05', 'C06', 'C07', 'C08', 'C09', 'C10', 'C11', 'C12', 'C13', 'C14', 'C15', 'C16', 'C17']:
     if _p in _BUILT:
         prop(_p, level='proof', level_text='Verus discharges the contracts of the real functions serving this property for all inputs (under construction: unit list grows)',
@@ -55,3 +55,120 @@ PAIRS = {
     'Ipv6ExtensionsSlice::from_slice_lax': ['h_pairs::p_ext_walk_lax'],
     '<Iterator for Ipv6ExtensionSliceIter>::next': ['h_pairs::p_ext_walk_lax'],
 }
+
+# ---- C17: typed control-message views (agent k-ctrl; reference tables written from the RFCs inside h_ctrl.rs) ------------------
+harness('h_ctrl::c17_icmpv4_type', ['C17'], 'complete (loop-free; all byte strings 0..=24 B, every (type, code, rest-of-header, length class))', 'Icmpv4Slice/Icmpv4Header::from_slice accept set + error fields, timestamp exact-20 rule, icmp_type()==RFC 792/1122/1191/1812 table incl. Unknown fallback, header/payload split', tier='quick', bound='none', timeout=600)
+harness('h_ctrl::c17_icmpv6_type', ['C17'], 'complete (loop-free; all byte strings 0..=12 B; len > u32::MAX rejection not reachable)', 'Icmpv6Slice/Icmpv6Header::from_slice, icmp_type()==RFC 4443/4861 table incl. Unknown fallback, RA/NA flag bits, 8-byte header/payload split', tier='quick', bound='none', timeout=600)
+harness('h_ctrl::c17_icmpv6_ndp_payload', ['C17'], 'complete (loop-free; all ICMPv6 messages of 8..=48 B; fixed parts of RS/RA/NS/NA/redirect)', 'payload_slice(): fixed part sizes 0/8/16/16/32, too-short rejection with real sizes, RFC 4861 field offsets, options split, Raw iff no typed header form, Icmpv6Type::payload_slice agrees', tier='quick', bound='none', timeout=900)
+harness('h_ctrl::c17_ndp_options_step', ['C17', 'C02'], 'bounded (option area <= 48 B; loop-free one-step contract from any iterator state)', 'NdpOptionsIterator::next: zero unit / truncated / lone type byte / prefix-info!=32 / MTU!=8 rejected with real sizes, per-type variant+accessors at RFC 4861 4.6 offsets, option==consumed prefix & rest==suffix (identity), exhausted after error', tier='quick', bound='option area <= 48 bytes', timeout=600)
+harness('h_ctrl::c17_ndp_options_walk', ['C17', 'C02'], 'bounded (option area <= 32 B, <= 4 options, unwind 6)', 'full iterator walk: options tile the area contiguously without gap/overlap up to the first rejected option, error is last item, no-error walk covers the whole area', tier='quick', bound='option area <= 32 bytes (<= 4 options)', timeout=900)
+harness('h_ctrl::c17_igmp_header', ['C17'], 'complete (loop-free; all byte strings 0..=16 B)', 'IgmpHeader::from_slice: kind by type byte AND length (0x11: 8 B v1/v2 query, 9..11 rejected, >=12 v3), 0x12/0x16/0x17/0x22, Unknown raw fallback, fields, rest split, S flag/QRV/flags bits, MaxResponseCode float == RFC 3376 4.1.1', tier='quick', bound='none', timeout=300)
+harness('h_ctrl::c17_igmp_group_record', ['C17'], 'complete for the 8-byte record header (loop-free; byte strings 0..=24 B); source list handed back raw', 'ReportGroupRecordV3Header::from_slice: too-short rejection, record type/aux len/num sources/multicast address at RFC 3376 4.2 offsets, rest == suffix', tier='quick', bound='none', timeout=120)
+harness('h_ctrl::c17_arp_slice', ['C17'], 'complete (loop-free; all byte strings 0..=1032 B, hln/pln unconstrained 0..=255 - 1028 is the largest ARP packet)', 'ArpPacketSlice::from_slice accepts exactly len >= 8+2*hln+2*pln (error fields incl. ArpAddrLengths source), view cut to packet length, all accessors at RFC 826 offsets (identity)', tier='quick', bound='none', timeout=400)
+harness('h_ctrl::c17_arp_eth_ipv4', ['C17'], 'complete for the Ethernet/IPv4 layout (loop-free; all byte strings 28..=32 B with hln=6, pln=4)', 'ArpPacket::from_slice fields + ArpEthIpv4Packet::try_from accepts exactly hrd 1 & pro 0x0800, copies op and the four addresses from offsets 8/14/18/24; try_eth_ipv4 agrees', tier='thorough', bound='none', timeout=1200, heavy=True)
+harness('h_ctrl::c17_arp_eth_ipv4_sizes', ['C17'], 'bounded (byte strings 0..=32 B, accepted packets have 2*hln+2*pln <= 24)', 'ArpPacket::from_slice accept set + try_from Ok iff hrd 1, pro 0x0800, hln 6, pln 4; every rejection names a really mismatching field with its real value (no precedence asserted)', tier='thorough', bound='slice <= 32 bytes', timeout=1200, heavy=True)
+
+# ---- C13: TCP options (agent k-tcpopt; RFC 9293/7323/2018 reference step inside h_tcpopt.rs) ---------------------------------
+harness('h_tcpopt::c13_tcpopt_step', ['C13', 'C02', 'C01'], 'complete (every option area of 0..=40 bytes, one-step contract, induction gives tiling/termination/stays-exhausted)', 'TcpOptionsIterator::next == RFC reference step: element from exactly the consumed prefix, rest() = suffix by address, errors state real kind/size/remaining len, exhausted after None/Err', tier='quick', bound='none', timeout=900)
+harness('h_tcpopt::c13_tcpopt_encode_n0', ['C13'], 'complete (empty list)', 'try_from_elements(&[]) -> len 0, data_offset 5, iteration empty', tier='quick', bound='list length 0', timeout=120)
+harness('h_tcpopt::c13_tcpopt_encode_n1', ['C13'], 'bounded (all lists of exactly 1 element, all kinds/values/SACK patterns)', 'try_from_elements: Ok iff sum<=40, len=round_up_4, END padding, iteration yields the elements then ends, data_offset', tier='quick', bound='list length 1', timeout=900)
+harness('h_tcpopt::c13_tcpopt_encode_n2', ['C13'], 'bounded (all lists of exactly 2 elements; sizes 2..68)', 'as n1 plus Err(NotEnoughSpace(real sum))', tier='thorough', bound='list length 2', timeout=1200)
+harness('h_tcpopt::c13_tcpopt_encode_n3', ['C13'], 'bounded (all lists of exactly 3 elements; reaches sum==40 and 41)', 'as n2', tier='thorough', bound='list length 3', timeout=1800)
+harness('h_tcpopt::c13_tcpopt_encode_n4', ['C13'], 'bounded (all lists of exactly 4 elements)', 'as n2', tier='thorough', bound='list length 4', timeout=3000)
+harness('h_tcpopt::c13_tcpopt_encode_sack_identity', ['C13'], 'complete (every single SACK element incl. gap patterns)', 'STRICT: encode+iterate returns the identical SACK element', tier='quick', bound='single element', timeout=600)
+harness('h_tcpopt::c13_tcpopt_encode_sack_canonical', ['C13'], 'complete (every single gap-free SACK element)', 'encode+iterate is the identity for gap-free SACK values', tier='quick', bound='single element', timeout=600)
+harness('h_tcpopt::c13_tcpopt_try_from_slice', ['C13', 'C14'], 'complete (every slice of 0..=44 bytes)', 'try_from_slice / TryFrom<&[u8]> / TcpHeader::set_options_raw: Ok iff len<=40, bytes kept, zero-padded to multiple of 4, else NotEnoughSpace(len) and header unchanged; header_len==20+len==4*data_offset', tier='quick', bound='none (lengths above 44 not enumerated)', timeout=600)
+harness('h_tcpopt::c13_tcpopt_set_options', ['C13'], 'bounded (all lists of exactly 2 elements)', 'TcpHeader::set_options: header_len/data_offset consistent on Ok, header unchanged + NotEnoughSpace(sum) on Err', tier='thorough', bound='list length 2', timeout=1200)
+harness('h_tcpopt::c13_tcpopt_encode_noops_40_41', ['C13'], 'bounded (two concrete lists: 40 and 41 NOPs)', 'longest fitting list by count Ok and iterates to 40 Noop; 41 -> NotEnoughSpace(41)', tier='quick', bound='2 concrete inputs', timeout=600)
+harness('h_tcpopt::c13_tcpopt_from_array_4', ['C13'], 'complete (all [u8;4])', 'From<[u8;4]> keeps bytes/len, equals try_from_slice', tier='quick', bound='none', timeout=120)
+harness('h_tcpopt::c13_tcpopt_from_array_20', ['C13'], 'complete (all [u8;20])', 'From<[u8;20]> keeps bytes/len', tier='quick', bound='none', timeout=120)
+harness('h_tcpopt::c13_tcpopt_from_array_36', ['C13'], 'complete (all [u8;36])', 'From<[u8;36]> keeps bytes/len', tier='quick', bound='none', timeout=120)
+harness('h_tcpopt::c13_tcpopt_from_array_40', ['C13'], 'complete (all [u8;40], separate impl)', 'From<[u8;40]> keeps bytes/len', tier='quick', bound='none', timeout=120)
+
+# ---- C08 round trips + C15 no-bleed (agent k-roundtrip); tier by measured solver time: quick <= 45 s ------------------------
+harness('h_roundtrip::c08_rt_ethernet2', ['C08'], 'complete (loop-free, all 2^112 values)', 'Ethernet2Header: to_bytes/write/write_to_slice agree, layout, from_slice/from_bytes/read give value back', tier='quick', bound='none', timeout=300, heavy=False)
+harness('h_roundtrip::c08_br_ethernet2', ['C08'], 'complete (all 14-byte strings + tail)', 'Ethernet2Header: decode->encode reproduces input, no mask', tier='quick', bound='none', timeout=300, heavy=False)
+harness('h_roundtrip::c15_nobleed_single_vlan', ['C15'], 'complete (all fields symbolic)', 'SingleVlanHeader: bytes == pcp<<13|dei<<12|vid, ether type', tier='quick', bound='none', timeout=300, heavy=False)
+harness('h_roundtrip::c08_rt_single_vlan', ['C08'], 'complete', 'SingleVlanHeader value->bytes->value (to_bytes, write, from_slice, from_bytes, read)', tier='quick', bound='none', timeout=300, heavy=False)
+harness('h_roundtrip::c08_br_single_vlan', ['C08'], 'complete (all 4-byte strings + tail)', 'SingleVlanHeader bytes->value->bytes, no mask', tier='quick', bound='none', timeout=300, heavy=False)
+harness('h_roundtrip::c08_rt_linux_sll', ['C08'], 'complete (packet type 0..=7, 5 supported ARPHRD, typed protocol variant)', 'LinuxSllHeader value->bytes->value + layout, write, write_to_slice, from_slice, from_bytes, read', tier='quick', bound='none', timeout=300, heavy=False)
+harness('h_roundtrip::c08_br_linux_sll', ['C08'], 'complete (all 16-byte strings + tail)', 'LinuxSllHeader: accepted iff ptype<=7 & ARPHRD supported; typed variant chosen; re-encode == input', tier='quick', bound='none', timeout=300, heavy=False)
+harness('h_roundtrip::c08_rt_udp', ['C08'], 'complete', 'UdpHeader value->bytes->value + layout', tier='quick', bound='none', timeout=300, heavy=False)
+harness('h_roundtrip::c08_br_udp', ['C08'], 'complete', 'UdpHeader bytes->value->bytes, no mask', tier='quick', bound='none', timeout=300, heavy=False)
+harness('h_roundtrip::c15_nobleed_ipv6', ['C15'], 'complete', 'Ipv6Header: word0 == 6<<28|tc<<20|flow, remaining bytes per RFC 8200', tier='quick', bound='none', timeout=300, heavy=False)
+harness('h_roundtrip::c08_rt_ipv6', ['C08'], 'complete', 'Ipv6Header value->bytes->value (to_bytes, write, from_slice, read)', tier='quick', bound='none', timeout=300, heavy=False)
+harness('h_roundtrip::c08_br_ipv6', ['C08'], 'complete (all 40-byte strings + tail)', 'Ipv6Header: accepted iff version 6; re-encode == input', tier='quick', bound='none', timeout=300, heavy=False)
+harness('h_roundtrip::c15_nobleed_ipv6_frag', ['C15'], 'complete', 'Ipv6FragmentHeader: bytes 2-3 == off<<3|M, reserved byte and Res bits zero', tier='quick', bound='none', timeout=300, heavy=False)
+harness('h_roundtrip::c08_rt_ipv6_frag', ['C08'], 'complete', 'Ipv6FragmentHeader value->bytes->value', tier='quick', bound='none', timeout=300, heavy=False)
+harness('h_roundtrip::c08_br_ipv6_frag', ['C08'], 'complete', 'Ipv6FragmentHeader bytes->value->bytes, mask = reserved byte 1 + Res bits 2..1 of byte 3', tier='quick', bound='none', timeout=300, heavy=False)
+harness('h_roundtrip::c15_nobleed_macsec', ['C15'], 'complete (all 4 sizes 6/8/14/16)', 'MacsecHeader: TCI/AN bit formula, V=0, SL upper bits 0, PN, SCI, ether type, length', tier='quick', bound='none', timeout=300, heavy=False)
+harness('h_roundtrip::c08_rt_macsec', ['C08'], 'complete (all 4 sizes; excludes Unmodified with short_len 1)', 'MacsecHeader value->bytes->value (to_bytes, write, from_slice, read)', tier='quick', bound='none', timeout=300, heavy=False)
+harness('h_roundtrip::c08_br_macsec', ['C08'], 'complete (all strings of length 0..=16)', 'MacsecHeader bytes->value->bytes, mask = bits 8,7 of SL octet; V=1 rejected', tier='quick', bound='none', timeout=300, heavy=False)
+harness('h_roundtrip::c15_nobleed_ipv4', ['C15'], 'complete (all fields, options 0,4..40)', 'Ipv4Header::to_bytes == RFC 791 per-byte formula, reserved flag 0', tier='quick', bound='none', timeout=300, heavy=False)
+harness('h_roundtrip::c08_rt_ipv4', ['C08'], 'complete (options 0,4..40; unwind 65)', 'Ipv4Header: to_bytes len, write_raw == to_bytes, from_slice/read give value back', tier='thorough', bound='none', timeout=582, heavy=False)
+harness('h_roundtrip::c08_rt_ipv4_write', ['C08'], 'complete modulo stubbed calc_header_checksum (unwind 65)', 'Ipv4Header::write == to_bytes except checksum bytes == calc_header_checksum(); decode gives value with checksum filled', tier='quick', bound='none', timeout=300, heavy=False)
+harness('h_roundtrip::c08_br_ipv4', ['C08'], 'complete (all strings of length 0..=60; unwind 65)', 'Ipv4Header bytes->value->bytes, mask = reserved flag bit; acceptance condition', tier='thorough', bound='none', timeout=366, heavy=False)
+harness('h_roundtrip::c08_rt_tcp', ['C08'], 'complete (all flags, raw options 0..=40 incl. padding; unwind 65)', 'TcpHeader layout per RFC 9293, set_options_raw padding, to_bytes == write, from_slice gives value back', tier='thorough', bound='none', timeout=1086, heavy=False)
+harness('h_roundtrip::c08_rt_tcp_read', ['C08'], 'complete (same domain; unwind 65)', 'TcpHeader::read(to_bytes) == value', tier='thorough', bound='none', timeout=390, heavy=False)
+harness('h_roundtrip::c08_br_tcp', ['C08'], 'complete (all strings of length 0..=60; unwind 65)', 'TcpHeader bytes->value->bytes, mask = reserved bits 3..1 of byte 12', tier='thorough', bound='none', timeout=420, heavy=False)
+harness('h_roundtrip::c08_rt_icmpv4', ['C08'], 'complete (every typed variant + Unknown for untyped (type,code))', 'Icmpv4Header layout per RFC 792/1191, to_bytes == write, from_slice gives value back (8 and 20 byte forms)', tier='thorough', bound='none', timeout=822, heavy=False)
+harness('h_roundtrip::c08_rt_icmpv4_read', ['C08'], 'complete (same domain)', 'Icmpv4Header::read(to_bytes) == value', tier='thorough', bound='none', timeout=504, heavy=False)
+harness('h_roundtrip::c08_br_icmpv4', ['C08'], 'complete (all strings of length 0..=24)', 'Icmpv4Header bytes->value->bytes with per-(type,code) mask of unused bytes; typed variant iff known pair', tier='thorough', bound='none', timeout=456, heavy=False)
+harness('h_roundtrip::c08_rt_icmpv6', ['C08'], 'complete (every typed variant + Unknown)', 'Icmpv6Header layout per RFC 4443/4861, write, from_slice, read', tier='thorough', bound='none', timeout=390, heavy=False)
+harness('h_roundtrip::c08_br_icmpv6', ['C08'], 'complete (all strings of length 0..=12)', 'Icmpv6Header bytes->value->bytes with per-(type,code) mask', tier='quick', bound='none', timeout=300, heavy=False)
+harness('h_roundtrip::c08_rt_igmp', ['C08'], 'complete (all 7 variants)', 'IgmpHeader layout, to_bytes len == header_len, from_slice gives value back', tier='quick', bound='none', timeout=300, heavy=False)
+harness('h_roundtrip::c08_br_igmp', ['C08'], 'complete (all strings of length 0..=14)', 'IgmpHeader bytes->value->bytes, mask = byte 1 of reports/leave; 8 vs >=12 byte query split', tier='quick', bound='none', timeout=300, heavy=False)
+harness('h_roundtrip::c15_nobleed_igmp_query_with_sources', ['C15'], 'complete', 'MembershipQueryWithSourcesHeader: set_flags/set_s_flag/set_qrv in 3 orders -> byte 8 == Resv<<4|S<<3|QRV, other bytes own fields', tier='quick', bound='none', timeout=300, heavy=False)
+harness('h_roundtrip::c08_rt_arp_eth_ipv4', ['C08'], 'complete (all values)', 'ArpEthIpv4Packet layout (RFC 826), == to_arp_packet().to_bytes(), ArpPacket::from_slice + try_eth_ipv4 give value back', tier='thorough', bound='none', timeout=564, heavy=False)
+harness('h_roundtrip::c08_rt_ip_auth_to_bytes', ['C08'], 'bounded (ICV 12 B, shrunk from 16 via set_raw_icv)', 'IpAuthHeader::to_bytes == RFC 4302 image, len == header_len, no stale bytes', tier='thorough', bound='ICV = 12 bytes', timeout=2244, heavy=True)
+harness('h_roundtrip::c08_rt_ip_auth_write_from_slice', ['C08'], 'bounded (ICV 12 B)', 'IpAuthHeader::write == same RFC 4302 image; from_slice(image) == (value, [])', tier='quick', bound='ICV = 12 bytes', timeout=300, heavy=False)
+harness('h_roundtrip::c08_rt_ip_auth_read', ['C08'], 'bounded (ICV 12 B)', 'IpAuthHeader::read(image) == value', tier='quick', bound='ICV = 12 bytes', timeout=300, heavy=False)
+harness('h_roundtrip::c08_br_ip_auth', ['C08'], 'bounded (payload len field 4, input 24..=28 B)', 'IpAuthHeader bytes->value->write, mask = reserved bytes 2,3; decode again same value', tier='thorough', bound='ICV = 12 bytes', timeout=360, heavy=False)
+
+# ---- whole-packet relational / touch harnesses (agent k-packet), all BOUNDED; quick = one representative per clause -------------
+harness('h_packet::c05_lax_vs_strict_ip_v4_udp', ['C05'], 'bounded (all inputs <= 40 B, b[0]==0x45, proto 17)', 'SlicedPacket::from_ip vs LaxSlicedPacket::from_ip: lax extends strict, stop_err layer, incomplete <=> total_len > len', tier='quick', bound='N=40, unwind 4', timeout=900, heavy=False)
+harness('h_packet::c05_lax_vs_strict_ip_v4_tcp', ['C05'], 'bounded (<= 40 B, 0x45, proto 6)', 'same, TCP', tier='thorough', bound='N=40, unwind 4', timeout=900, heavy=False)
+harness('h_packet::c05_lax_vs_strict_ip_v4_icmpv4', ['C05'], 'bounded (<= 40 B, 0x45, proto 1)', 'same, ICMP', tier='thorough', bound='N=40, unwind 4', timeout=900, heavy=False)
+harness('h_packet::c05_lax_vs_strict_ip_v4_icmpv6', ['C05'], 'bounded (<= 40 B, 0x45, proto 58)', 'same, ICMPv6 in IPv4', tier='thorough', bound='N=40, unwind 4', timeout=900, heavy=False)
+harness('h_packet::c05_lax_vs_strict_ip_v4_auth', ['C05'], 'bounded (<= 48 B, 0x45, proto 51 then any)', 'same, AH + any transport', tier='thorough', bound='N=48, unwind 4', timeout=900, heavy=False)
+harness('h_packet::c05_lax_vs_strict_ip_v4_other', ['C05'], 'bounded (<= 40 B, 0x45, proto not in {0,1,6,17,43,44,51,58,60})', 'same, unknown protocol', tier='thorough', bound='N=40, unwind 4', timeout=900, heavy=False)
+harness('h_packet::c05_lax_vs_strict_ip_v4_ihl_udp', ['C05'], 'bounded (<= 40 B, version 4, symbolic IHL, proto 17)', 'same, IPv4 options', tier='thorough', bound='N=40, unwind 8', timeout=1800, heavy=False)
+harness('h_packet::c05_lax_vs_strict_ip_v6_udp', ['C05'], 'bounded (<= 56 B, b[0]==0x60, next 17)', 'same, IPv6+UDP', tier='quick', bound='N=56, unwind 4', timeout=900, heavy=False)
+harness('h_packet::c05_lax_vs_strict_ip_v6_icmpv6', ['C05'], 'bounded (<= 56 B, 0x60, next 58)', 'same, IPv6+ICMPv6', tier='thorough', bound='N=56, unwind 4', timeout=900, heavy=False)
+harness('h_packet::c05_lax_vs_strict_ip_v6_other', ['C05'], 'bounded (<= 48 B, 0x60, unknown next header)', 'same', tier='thorough', bound='N=48, unwind 4', timeout=1200, heavy=False)
+harness('h_packet::c05_lax_vs_strict_ip_any_short', ['C05','C02'], 'bounded (all inputs <= 24 B, nothing fixed)', 'same, version dispatch/short/unknown version', tier='quick', bound='N=24, unwind 4', timeout=900, heavy=False)
+harness('h_packet::c04_headers_vs_sliced_ip_v4_udp', ['C04'], 'bounded (<= 32 B, 0x45, proto 17)', 'PacketHeaders::from_ip_slice vs SlicedPacket::from_ip (UDP incl. inconsistent length fields: the D3 domain)', tier='thorough', bound='N=32, unwind 42', timeout=3600, heavy=True)
+harness('h_packet::c04_headers_vs_sliced_ip_v4_udp_consistent_len', ['C04'], 'bounded (<= 32 B, 0x45, UDP, udp.length in {0, ip payload len})', 'same outside the D3 domain', tier='thorough', bound='N=32, unwind 42', timeout=3600, heavy=True)
+harness('h_packet::c04_headers_vs_sliced_ip_v4_tcp', ['C04'], 'bounded (<= 40 B, 0x45, proto 6)', 'same, TCP', tier='thorough', bound='N=40, unwind 42', timeout=4500, heavy=True)
+harness('h_packet::c06_ip_variants_v4_short', ['C06'], 'bounded (all inputs 1..=19 B, version 4)', 'IpSlice vs Ipv4Slice, LaxIpSlice vs LaxIpv4Slice (the D6 domain)', tier='quick', bound='N=19', timeout=600, heavy=False)
+harness('h_packet::c06_ip_variants_v4', ['C06'], 'bounded (20..=44 B, version 4, symbolic IHL, any proto)', 'IpSlice==Ipv4Slice, LaxIpSlice==LaxIpv4Slice (value + error fields)', tier='quick', bound='N=44, unwind 4', timeout=1200, heavy=False)
+harness('h_packet::c06_ip_variants_v6', ['C06'], 'bounded (1..=48 B, b[0]==0x60)', 'IpSlice==Ipv6Slice, LaxIpSlice==LaxIpv6Slice', tier='thorough', bound='N=48, unwind 5', timeout=1800, heavy=False)
+harness('h_packet::c06_ip_variants_other_version', ['C06'], 'bounded (<= 8 B, version not 4/6 or empty)', 'IpSlice/IpHeaders/LaxIpSlice/IpHeaders lax: same error, = version found', tier='quick', bound='N=8', timeout=600, heavy=False)
+harness('h_packet::c06_doors_ether_type_vs_ip_v4_udp', ['C06'], 'bounded (<= 40 B, 0x45, UDP)', 'from_ether_type(IPV4) vs from_ip, SlicedPacket + LaxSlicedPacket', tier='quick', bound='N=40, unwind 4', timeout=1200, heavy=False)
+harness('h_packet::c06_doors_ether_type_vs_ip_v4_ihl', ['C06'], 'bounded (20..=28 B, version 4, symbolic IHL, unknown proto)', 'same, header faults', tier='thorough', bound='N=28, unwind 8', timeout=1200, heavy=False)
+harness('h_packet::c06_doors_ether_type_vs_ip_v6_udp', ['C06'], 'bounded (<= 52 B, 0x60, UDP)', 'from_ether_type(IPV6) vs from_ip', tier='thorough', bound='N=52, unwind 4', timeout=1500, heavy=False)
+harness('h_packet::c01_touch_udp_slice', ['C01','C02'], 'bounded (<= 16 B)', 'UdpSlice from_slice/_lax, all accessors, sub-slices inside', tier='quick', bound='N=16', timeout=300, heavy=False)
+harness('h_packet::c01_touch_single_vlan_slice', ['C01','C02'], 'bounded (<= 12 B)', 'SingleVlanSlice', tier='quick', bound='N=12', timeout=300, heavy=False)
+harness('h_packet::c01_touch_ethernet2_slice', ['C01','C02'], 'bounded (<= 24 B)', 'Ethernet2Slice without/with FCS', tier='quick', bound='N=24', timeout=360, heavy=False)
+harness('h_packet::c01_touch_icmpv6_slice', ['C01','C02'], 'bounded (<= 24 B)', 'Icmpv6Slice', tier='quick', bound='N=24', timeout=300, heavy=False)
+harness('h_packet::c01_touch_icmpv4_slice', ['C01','C02'], 'bounded (<= 24 B)', 'Icmpv4Slice', tier='quick', bound='N=24', timeout=300, heavy=False)
+harness('h_packet::c01_touch_arp_packet_slice', ['C01','C02'], 'bounded (<= 36 B)', 'ArpPacketSlice', tier='quick', bound='N=36', timeout=300, heavy=False)
+harness('h_packet::c01_touch_macsec_slice', ['C01','C02'], 'bounded (<= 24 B)', 'MacsecSlice + LaxMacsecSlice', tier='quick', bound='N=24', timeout=300, heavy=False)
+harness('h_packet::c01_touch_linux_sll_slice', ['C01','C02'], 'bounded (<= 24 B)', 'LinuxSllSlice incl. unwrap_unchecked accessors', tier='quick', bound='N=24, unwind 10', timeout=300, heavy=False)
+harness('h_packet::c01_touch_ipv4_slice', ['C01','C02'], 'bounded (<= 44 B)', 'Ipv4Slice + LaxIpv4Slice, symbolic IHL, AH', tier='quick', bound='N=44, unwind 26', timeout=900, heavy=False)
+harness('h_packet::c01_touch_ipv6_exts_slice', ['C01','C02'], 'bounded (any first header, area <= 32 B)', 'Ipv6ExtensionsSlice::from_slice + iteration + to_header', tier='thorough', bound='N=32, unwind 8', timeout=2700, heavy=False)
+harness('h_packet::c01_touch_ipv6_exts_slice_lax', ['C01'], 'bounded (any first header, area <= 32 B)', 'from_slice_lax + iterating the lax result (the D1 domain)', tier='thorough', bound='N=32, unwind 8', timeout=2700, heavy=False)
+
+# ---- C11 / C12 (agent k-exts-defrag) -----------------------------------------------------------------------------------------
+harness('h_extdef::c11_frag_range_merge', ['C11'], 'complete (loop-free, 4 x u16)', 'IpFragRange::merge: Some iff closed ranges touch/overlap, exact union, symmetric', tier='quick', bound='none', timeout=120)
+harness('h_extdef::c11_defrag_buf_step2', ['C11'], 'bounded (2 fragments <=16 B, 64-byte window)', 'IpDefragBuf::add step contract vs ghost view (well-formed sections, bytes kept, documented errors, Err leaves state)', tier='quick', bound='2 adds, frag<=16B, window 64B', timeout=900)
+harness('h_extdef::c11_defrag_buf_step', ['C11'], 'bounded (3 fragments <=16 B, 64-byte window)', 'same contract, pre-state = up to 2 accepted fragments', tier='thorough', bound='3 adds, frag<=16B, window 64B', timeout=1800, heavy=True)
+harness('h_extdef::c11_defrag_buf_orders', ['C11'], 'bounded (3x8 B cut, 6 orders, recycled stale buffer)', 'complete exactly at last missing fragment, data==payload, no stale bytes', tier='quick', bound='one cut 3x8B', timeout=900)
+harness('h_extdef::c11_defrag_buf_dups', ['C11'], 'bounded (2x8 B cut, 3 deliveries with one duplicate)', 'duplicates before/after completion', tier='thorough', bound='one cut 2x8B', timeout=900)
+harness('h_extdef::c12_set_then_walk', ['C12'], 'complete for walk domain (48 presence combos x links x n)', 'set_next_headers links in RFC 8200 order, next_header(first)==Ok(n)', tier='quick', bound='payload sizes minimal', timeout=300)
+harness('h_extdef::c12_walk_errors', ['C12'], 'complete for walk domain', 'next_header == reference walk; specific ExtsWalkError, nothing dropped', tier='quick', bound='payload sizes minimal', timeout=300)
+harness('h_extdef::c12_write_iff_walk', ['C12', 'C10'], 'complete for walk domain, AH::to_bytes stubbed', 'write Ok <=> walk Ok <=> ref; bytes==header_len; no panic', tier='thorough', bound='payload sizes minimal; AH to_bytes stub', timeout=1800)
+harness('h_extdef::c12_ipv4_exts', ['C12'], 'complete (presence x link x first), ICV 4 B, AH::to_bytes stubbed', 'Ipv4Extensions set/walk/write clauses', tier='quick', bound='ICV 4B; AH to_bytes stub; no decode', timeout=300)
+harness('h_extdef::c12_ip_headers_v6_walk', ['C12'], 'complete for walk domain', 'IpHeaders::Ipv6 next_header()==ref walk, header_len==40+exts', tier='thorough', bound='payload sizes minimal', timeout=1800, heavy=True)
+harness('h_extdef::c12_ip_headers_ether_type_v6', ['C12'], 'complete for walk domain', 'IpHeaders/NetHeaders set_next_headers -> 0x86DD, first link, same links', tier='quick', bound='payload sizes minimal', timeout=900)
+harness('h_extdef::c12_ip_headers_ether_type_v4', ['C12'], 'complete (presence x link x protocol)', 'IPv4: 0x0800, protocol field, next_header, header_len', tier='quick', bound='ICV 0B, no options', timeout=300)
